@@ -50,7 +50,14 @@
 (*  - a share request to a peer that has not yet run its own share phase   *)
 (*    fails ("don't have enough mpks yet") and is not retried unless more  *)
 (*    than K requests were sent: the sender reveals that share in the      *)
-(*    publish phase.                                                       *)
+(*    publish phase;                                                       *)
+(*  - Wait (and SignShareRequestHandler) look the sender's key vector up   *)
+(*    in the LOCAL copy without checking that it is there: a share revealed *)
+(*    by a miner the local copy does not know (a stale REST answer in the  *)
+(*    share phase) is a nil dereference, the DKG process panics            *)
+(*    (lp = "crashed"; the handler's panic is recovered by the server);    *)
+(*  - the contract accepts shares-or-signs with K-1 entries, so a magic    *)
+(*    block may carry a miner for whom another member provided no share.   *)
 (*                                                                         *)
 (* Data abstraction.  A secret polynomial of miner j is identified by a    *)
 (* number p >= 1 (the p-th MakeDKG of j); its public key vector (MPK) and  *)
@@ -122,8 +129,9 @@ Include(t) ==
             /\ sosv' = IF t.kind = "sos" THEN [sosv EXCEPT ![t.from] = t.sos] ELSE sosv
        ELSE UNCHANGED <<S, mpkv, mpkp, sosv>>
   /\ UNCHANGED <<mb, round, cycle, eff, ntx, lag, nf, cl>>
-(* a transaction that never gets into a block *)
-Drop(t) == t \in pool /\ pool' = pool \ {t} /\ Fault /\ UNCHANGED <<scvars, ntx, lag, cl>>
+(* a transaction that never gets into a block (it is in the pool without being waited for only after a failed *)
+(* confirmation, which was the fault)                                                                      *)
+Drop(t) == t \in pool /\ pool' = pool \ {t} /\ NoFault /\ UNCHANGED <<scvars, ntx, lag, cl>>
 
 Cur == [S |-> S, mpkv |-> mpkv, mpkp |-> mpkp, mb |-> mb]
 Views == IF LagOn THEN {Cur, lag} ELSE {Cur}
